@@ -90,6 +90,13 @@ func (m *Mutex) TryLock() bool {
 func (m *Mutex) Unlock() {
 	s := sched.Active()
 	if s == nil {
+		if m.held {
+			// locked in the model by a thread of an execution that was abandoned (sched.Stall): the thread lives on without
+			// a scheduler; the real mutex was never taken
+			m.held = false
+			heldModel.Add(-1)
+			return
+		}
 		m.real.Unlock()
 		return
 	}
@@ -146,6 +153,11 @@ func (m *RWMutex) Lock() {
 func (m *RWMutex) Unlock() {
 	s := sched.Active()
 	if s == nil {
+		if m.writer {
+			m.writer = false // (see Mutex.Unlock: a thread of an abandoned execution)
+			heldModel.Add(-1)
+			return
+		}
 		m.real.Unlock()
 		return
 	}
@@ -182,6 +194,11 @@ func (m *RWMutex) RLock() {
 func (m *RWMutex) RUnlock() {
 	s := sched.Active()
 	if s == nil {
+		if m.readers > 0 {
+			m.readers--
+			heldModel.Add(-1)
+			return
+		}
 		m.real.RUnlock()
 		return
 	}
